@@ -8,7 +8,7 @@ CONSTANTS
   HWM = 1000000000
   Slack = 1500
   RestoreSlack = 500
-  AnswerSlack = 300
+  AnswerSlack = 1000
 CONSTRAINT HighWater
 POSTCONDITION TraceAccepted
 CHECK_DEADLOCK FALSE
